@@ -98,8 +98,16 @@ def case(args):
             if r1["rc"] != 0:
                 problems.append(("partial-run-fails", r1["stderr"][-200:]))
         elif mode == "strace":
-            # kill inside a write(2) to the audit file of a finalized output (the tagging component rewrites it in place)
-            r1 = t3.run_impl(sc, sp, strace_kill=point, timeout=60)
+            # kill inside a write(2) to the audit file of a finalized output (the tagging component rewrites it).  strace counts
+            # `when=n` per thread, so the write is made the first one to that path in its run: the workflow is first run up to
+            # the producer (RunTo), then as a whole under strace -- the producer is skipped, the tagger's write is the first
+            save = sp.runto
+            sp.runto = [procs[0]]
+            r0 = t3.run_impl(sc, sp, timeout=60)
+            sp.runto = save
+            if r0["rc"] != 0:
+                problems.append(("partial-run-fails", r0["stderr"][-200:]))
+            r1 = t3.run_impl(sc, sp, strace_kill=(point[0], 1), timeout=60)
             c03.cleanup(sc.work)
             before = {}
         elif mode == "crash":
@@ -252,8 +260,7 @@ def run(rep, tier, seed):
             base = t3.run_model(sp.text())
             for t in base["tasks"]:
                 if t["proc"] == "w":
-                    for n in (1, 2):
-                        cases.append((seed, i, "strace", (t["outs"][0][2] + ".audit.json", n)))
+                    cases.append((seed, i, "strace", (t["outs"][0][2] + ".audit.json", 1)))
         for k in range(6):
             cases.append((seed, i + 1000 * k, "runto", None))
             cases.append((seed, i + 1000 * k, "delete", None))
